@@ -102,9 +102,12 @@ func genC18(t *rapid.T) *Case {
 		if r.Shape == "bidi" {
 			r.HOps = []MDOp{{Kind: "send", Idx: 0}}
 		}
-		nv := rapid.SampledFrom([]int{1, 1, 1, 2, 3}).Draw(t, fmt.Sprintf("r%d.nvals", i))
+		nv := rapid.SampledFrom([]int{1, 1, 1, 2, 3, 0}).Draw(t, fmt.Sprintf("r%d.nvals", i))
 		for j := 0; j < nv; j++ {
 			r.GrpcTimeout = append(r.GrpcTimeout, genTimeoutValue(t, fmt.Sprintf("r%d.v%d", i, j)))
+		}
+		if nv == 0 {
+			r.GrpcTimeoutNoValues = true // the key is present with an empty value list: no header value at all
 		}
 		c.RPCs = append(c.RPCs, r)
 	}
